@@ -85,6 +85,7 @@ def opIdx : P (List String) := do
   pure [kv "pos" (showNats pos.toList), kv "tpos" (showNats tpos.toList),
         kv "mpos" (showNats mpos.toList), kv "dpos" (showNats dpos.toList),
         kv "pos2" (showNats pos2.toList), kv "tpos2" (showNats tpos2.toList),
+        kv "copies" "1",   -- a copy (constructed, assigned, moved) is the same tensor: the model's tensors are values
         kv "size" (toString (R * C * T))]
 
 /-- `idxr kind R C T R2 C2 T2` — `resize` gives a zero tensor of the new shape (tensor.hpp:117-125);
